@@ -41,7 +41,23 @@ def A(x):
     return np.asarray(x, dtype=float)
 
 
+CTOR = 'faces'   # 'NL': use the (N.., L..) constructor form whenever the faces are equispaced from 0 (set by the runner per case)
+
+
+def nl_able(faces):
+    for f in faces:
+        f = np.asarray(f, dtype=float)
+        if f[0] != 0.0 or len(f) < 2:
+            return False
+        if not np.allclose(f, np.arange(len(f)) * (f[-1] / (len(f) - 1)), rtol=0, atol=1e-13 * abs(f[-1])):
+            return False
+    return True
+
+
 def make_grid(name, faces):
+    if CTOR == 'NL' and nl_able(faces):
+        fs = [np.asarray(f, dtype=float) for f in faces]
+        return getattr(pf, name)(*[len(f) - 1 for f in fs], *[float(f[-1]) for f in fs])
     return getattr(pf, name)(*[np.array(f, dtype=float) for f in faces])
 
 
